@@ -240,6 +240,29 @@ Destroy(s) ==
   /\ UNCHANGED <<nblk, stream>>
   /\ KeepViews({slot[s].blk})
 
+\* field<B>(make_parameter_pack(storage)): a field built from an EXISTING storage object of its own backend type, the way
+\* examples/core/generate_test_field.cpp and slice3dto2d.cpp build fields from another field's backend().  The pack holds
+\* the storage by const reference, by reference or by value depending on how it was named; the layers' parameter-pack
+\* constructors (strided.hpp:160-176 and the like) must COPY in the first two cases - the named object stays usable and
+\* independent - and may take the storage only when it was passed as an rvalue.  Same abstract effect as copy / move
+\* construction, different code path.  (hilbert and array only offer the rvalue form.)
+\* The rvalue form moves the named object INTO the pack; what the layer's constructor then does with the pack's member (copy
+\* it - strided.hpp:171-176 passes `args.x', an lvalue - or take it) is the layer's business.  Abstractly: the new field holds
+\* the contents, the named object is moved-from, exactly one storage block remains, and NOTHING is promised about which block
+\* that is - so long-lived views of the old storage are dead afterwards (modelled as copy to a fresh block + release).
+Adopt(d, s, how) ==
+  /\ how \in {"const", "lvalue", "rvalue"}
+  /\ (how # "rvalue") => slot[s].ty \in {"strided", "morton", "morton_portable"}
+  /\ IF how # "rvalue" THEN CopyCtor(d, s)
+     ELSE /\ slot[d].st = "dead" /\ FreshOK(d) /\ Live(s) /\ d # s /\ Tick
+          /\ LET b == NewBlk IN
+               /\ Bump(b)
+               /\ heap' = FreeOf([Alloc(heap, b, slot[s].size) EXCEPT ![b].cells = heap[slot[s].blk].cells], slot[s].blk)
+               /\ slot' = [slot EXCEPT ![d] = [slot[s] EXCEPT !.blk = b], ![s] = [slot[s] EXCEPT !.st = "moved", !.blk = NullBlk]]
+               /\ model' = [model EXCEPT ![d] = model[s], ![s] = <<>>]
+          /\ KeepViews({slot[s].blk})
+          /\ UNCHANGED <<err, stream>>
+
 \* field_view<B> v(f): copies the configuration and the storage pointer out of the field
 MakeView(v, s) ==
   /\ Live(s) /\ view[v].st = "none" /\ Tick
@@ -262,8 +285,8 @@ WriteView(v, c, val) ==
                /\ model' = [model EXCEPT ![OwnerOf(b)][c] = val]
   /\ UNCHANGED <<slot, nblk, stream, view>>
 
-AllOps == {"Construct", "Write", "CopyCtor", "MoveCtor", "CopyAssign", "MoveAssign", "Convert", "ConvertMove", "DefaultConstruct", "Dump", "Load", "Destroy"}
-BasicOps == AllOps \ {"ConvertMove", "DefaultConstruct"}
+AllOps == {"Construct", "Write", "CopyCtor", "MoveCtor", "CopyAssign", "MoveAssign", "Convert", "ConvertMove", "DefaultConstruct", "Dump", "Load", "Destroy", "Adopt"}
+BasicOps == AllOps \ {"ConvertMove", "DefaultConstruct", "Adopt"}
 LineageOps == {"Construct", "CopyCtor", "MoveCtor", "CopyAssign", "MoveAssign", "Destroy"}
 ViewOps == {"Construct", "Write", "CopyCtor", "MoveCtor", "CopyAssign", "MoveAssign", "Destroy"}
 CoreOps == {"Construct", "Write", "CopyCtor", "MoveCtor", "CopyAssign", "MoveAssign", "Convert", "Destroy"}
@@ -285,6 +308,7 @@ Next ==
   \/ (On("Convert") /\ \E d \in Slots, s \in Slots, ty \in Types : Convert(d, s, ty))
   \/ (On("ConvertMove") /\ \E d \in Slots, s \in Slots, ty \in Types : ConvertMove(d, s, ty))
   \/ (On("DefaultConstruct") /\ \E s \in ConstructSlots, ty \in Types : \E e \in ExtChoices : DefaultConstruct(s, ty, Len(e)))
+  \/ (On("Adopt") /\ \E d \in Slots, s \in Slots, how \in {"const", "lvalue", "rvalue"} : Adopt(d, s, how))
   \/ (\E v \in ViewIds, s \in Slots : MakeView(v, s))
   \/ (\E v \in ViewIds : DropView(v))
   \/ (\E v \in ViewIds : view[v].st = "valid" /\ \E c \in Box(view[v].ext), val \in Vals \ {0} : WriteView(v, c, val))
